@@ -990,10 +990,20 @@ def run_seq_ops(case):
                 if kind == "nuc":
                     A2 = list(AMB)
                 elif kind != "prot":
-                    extra = _extra_symbols({"kind": "letter" if kind == "gen_letter" else "generic"}, A, 2)
+                    n_extra = 2
+                    wide = kind != "gen_letter" and len(A) <= 256 and len(op[1]) >= 1 and sum(op[1]) % 3 != 0
+                    if wide:
+                        # the extended alphabet needs a wider code dtype than the current one
+                        n_extra = 300 - len(A)
+                    extra = _extra_symbols({"kind": "letter" if kind == "gen_letter" else "generic"}, A, n_extra)
                     if extra:
                         A2 = A + extra
+                        if wide:
+                            o.label("add_extending_beyond_code_width")
             other_syms = env.syms_from(op[1], A2) if op[1] else []
+            if ext and len(A2) > 256 >= len(A) and other_syms:
+                # make sure symbols with codes >= 256 take part
+                other_syms = [A2[-1 - (r % 40)] if j % 2 == 0 else sym for j, (r, sym) in enumerate(zip(op[1], other_syms))]
             other = env.make(other_syms, A2)
             if A2 != A:
                 o.label("add_extending_alphabet")
